@@ -1556,6 +1556,17 @@ fn hierarchy_size(files: &[(String, Result<grammar::Module, String>)]) -> usize 
         .min(1 << 24)
 }
 
+/// Where proc-macro2 stops tokenising `text` (line, column + 1), if it does.
+fn lex_error_position(text: &str) -> Option<(usize, usize)> {
+    match std::panic::catch_unwind(|| text.parse::<proc_macro2::TokenStream>()) {
+        Ok(Err(e)) => {
+            let lc = e.span().start();
+            Some((lc.line, lc.column + 1))
+        }
+        _ => None,
+    }
+}
+
 /// `<file_name>:<line>:<column>` in an error text.
 fn reported_position(e: &str, file_name: &str) -> Option<(usize, usize)> {
     let at = e.find(&format!("{file_name}:"))? + file_name.len() + 1;
@@ -1709,6 +1720,21 @@ pub fn evaluate(case: &Case, results: &[Vec<RunResult>], report: &mut CaseReport
                         };
                         if message.len() >= 12 && e.contains(&message) {
                             is_parse_error = true;
+                        }
+                        // A text that does not even tokenise fails where the tokeniser says
+                        // (asked directly, not through pyxis).
+                        if let Some((ll, lc)) = lex_error_position(&text) {
+                            if e.contains(&format!("{file_name}:{ll}:{lc}")) {
+                                positioned = true;
+                            } else if let Some((l, c)) = reported_position(e, &file_name) {
+                                return Verdict::violation(
+                                    "tokeniser-error-position-wrong",
+                                    format!(
+                                        "build {bi}: {file_name} does not tokenise at {ll}:{lc}, reported at {l}:{c}: {e}"
+                                    ),
+                                );
+                            }
+                            continue;
                         }
                         if at_token {
                             // The parser points at a token: that is the position.
